@@ -143,18 +143,27 @@ func (r *Run) enterBlock(st *State, fr *Frame, to *ssa.BasicBlock) bool {
 	if li := loopAt(fr.Fn, to); li != nil {
 		back := from != nil && li.Blocks[from] && to.Dominates(from)
 		invs := r.loopInvariants(fr.Fn, li.Ordinal)
+		outer := r.outerLoopInvariants(st, fr, li.Ordinal)
 		fname := e.fnName[fr.Fn]
 		if back {
 			for _, c := range invs {
 				e.obligationClause(st, fr, fmt.Sprintf("%s/loop%d/preserve:%s", fname, li.Ordinal, c.Label()), c, nil)
 			}
+			for _, oc := range outer {
+				e.obligationClause(st, oc.fr, fmt.Sprintf("%s/loop:%s/preserve:%s", e.fnName[oc.fr.Fn], oc.cl.Words[0], oc.cl.Label()), oc.cl, nil)
+			}
 			r.checkLoopLocks(st, fr, li, "preserve")
+			r.checkPendingDefers(st, fr, li, "preserve")
 			st.Done = true
 			return false
 		}
 		for _, c := range invs {
 			e.obligationClause(st, fr, fmt.Sprintf("%s/loop%d/entry:%s", fname, li.Ordinal, c.Label()), c, nil)
 		}
+		for _, oc := range outer {
+			e.obligationClause(st, oc.fr, fmt.Sprintf("%s/loop:%s/entry:%s", e.fnName[oc.fr.Fn], oc.cl.Words[0], oc.cl.Label()), oc.cl, nil)
+		}
+		r.checkPendingDefers(st, fr, li, "entry")
 		// remember lockset at loop head
 		st.Facts[fmt.Sprintf("looplocks:%s:%d", fname, li.Ordinal)] = locksKey(st.Locks)
 		r.havocLoop(st, fr, li)
@@ -162,6 +171,14 @@ func (r *Run) enterBlock(st *State, fr *Frame, to *ssa.BasicBlock) bool {
 			t := e.evalClause(st, fr, c, nil)
 			st.assume(t)
 		}
+		for _, oc := range outer {
+			st.assume(e.evalClause(st, oc.fr, oc.cl, nil))
+		}
+		fr.Prev = from
+		fr.Block = to
+		fr.PC = 0
+		r.injectPendingDefers(st, fr, li)
+		return true
 	}
 	fr.Prev = from
 	fr.Block = to
@@ -196,6 +213,97 @@ func (r *Run) loopInvariants(fn *ssa.Function, ord int) []*Clause {
 		return nil
 	}
 	return b.loopClauses(ord)
+}
+
+// outerLoopInvariants: clauses `loop inlinedFn>n invariant ...` in the blocks of enclosing frames.
+type outerInv struct {
+	fr *Frame
+	cl *Clause
+}
+
+func (r *Run) outerLoopInvariants(st *State, fr *Frame, ord int) []outerInv {
+	e := r.e
+	var out []outerInv
+	idx := -1
+	for i, f := range st.Frames {
+		if f == fr {
+			idx = i
+		}
+	}
+	for j := idx - 1; j >= 0; j-- {
+		f := st.Frames[j]
+		q := fmt.Sprintf("%d", ord)
+		for k := idx; k > j; k-- {
+			q = e.fnName[st.Frames[k].Fn] + ">" + q
+		}
+		b := e.cs.Funcs[e.fnName[f.Fn]]
+		if b == nil {
+			continue
+		}
+		for _, c := range b.All("loop") {
+			if len(c.Words) >= 2 && c.Words[0] == q && c.Words[1] == "invariant" {
+				out = append(out, outerInv{f, c})
+			}
+		}
+	}
+	return out
+}
+
+// pendingDeferClauses: `loop N pending-defer CELL : cond` — a defer statement inside loop N that is
+// executed at most once (guarded); at the loop head a call of the function held in CELL is pending iff cond.
+func (r *Run) pendingDeferClauses(fn *ssa.Function, ord int) []*Clause {
+	b := r.e.cs.Funcs[r.e.fnName[fn]]
+	if b == nil {
+		return nil
+	}
+	var out []*Clause
+	for _, c := range b.All("loop") {
+		if len(c.Words) >= 3 && c.Words[0] == fmt.Sprintf("%d", ord) && c.Words[1] == "pending-defer" {
+			out = append(out, c)
+		}
+	}
+	return out
+}
+
+func (r *Run) injectPendingDefers(st *State, fr *Frame, li *LoopInfo) {
+	e := r.e
+	for _, cl := range r.pendingDeferClauses(fr.Fn, li.Ordinal) {
+		cell, ok := fr.Cells[cl.Words[2]]
+		if !ok {
+			e.fail("pending-defer: no local %s", cl.Words[2])
+			continue
+		}
+		cond := e.evalClause(st, fr, cl, nil)
+		other := st.clone()
+		other.assume(Not(cond))
+		r.work = append(r.work, other)
+		st.assume(cond)
+		fr.Defers = append(fr.Defers, Deferred{Fn: st.Cells[cell], Injected: cl.Words[2], Call: &ssa.CallCommon{}})
+	}
+}
+
+// checkPendingDefers: at loop entry no defer of the loop is pending; at a back edge exactly the declared ones are.
+func (r *Run) checkPendingDefers(st *State, fr *Frame, li *LoopInfo, what string) {
+	e := r.e
+	for _, cl := range r.pendingDeferClauses(fr.Fn, li.Ordinal) {
+		n := 0
+		for _, d := range fr.Defers {
+			if d.Injected == cl.Words[2] {
+				n++
+			} else if d.Instr != nil && li.Blocks[d.Instr.Block()] {
+				n++
+			}
+		}
+		cond := e.evalClause(st, fr, cl, nil)
+		goal := Not(cond)
+		if n == 1 {
+			goal = cond
+		} else if n > 1 {
+			goal = False
+		}
+		name := fmt.Sprintf("%s/loop%d/%s:pending-%s", e.fnName[fr.Fn], li.Ordinal, what, cl.Words[2])
+		e.emitWith(st, name, "", nil, goal, fmt.Sprintf("deferred calls registered in the loop: %d pending iff %s", n, cl.Expr), e.framePos(fr), cl.Props, cl)
+	}
 }
 
 // havocLoop forgets everything the loop may modify.
@@ -261,6 +369,9 @@ func (r *Run) havocLoop(st *State, fr *Frame, li *LoopInfo) {
 					default:
 						all = true
 					}
+				} else if al, ok := a.X.(*ssa.Alloc); ok {
+					// element of a local array (e.g. the backing array of a variadic call)
+					addCell(resolveCell(f, fn, al, binds))
 				} else {
 					// slice value defined outside: treat conservatively
 					all = true
@@ -270,6 +381,14 @@ func (r *Run) havocLoop(st *State, fr *Frame, li *LoopInfo) {
 			}
 		case *ssa.MapUpdate:
 			regions["map:"+typeKey(x.Map.Type())] = true
+		case *ssa.Next:
+			if f != nil && fn == f.Fn {
+				if rg, ok := x.Iter.(*ssa.Range); ok {
+					if c, ok := f.Cells[fmt.Sprintf("mapiter%d", rangeOrdinal(fn, rg))]; ok {
+						addCell(c)
+					}
+				}
+			}
 		case *ssa.Go:
 			// the spawned body runs concurrently: its effects are interference, seen at lock acquisitions
 			regions["cnt:go"] = true
@@ -645,6 +764,9 @@ func (r *Run) drainDefers(st *State, fr *Frame) []*State {
 	if len(fr.Defers) > 0 {
 		d := fr.Defers[len(fr.Defers)-1]
 		fr.Defers = fr.Defers[:len(fr.Defers)-1]
+		if d.Injected != "" {
+			return r.invokeInjected(st, fr, d)
+		}
 		return r.invoke(st, fr, d.Call, d.Fn, d.Args, nil, d.Instr)
 	}
 	fr.InDefers = false
@@ -786,6 +908,21 @@ func (r *Run) newObject(st *State, t types.Type, hint string) T {
 		}
 	}
 	return ref
+}
+
+// assumeFreshTerm: a newly created value differs from every value of its sort that existed before.
+func (r *Run) assumeFreshTerm(st *State, t T) {
+	for _, o := range st.Fresh {
+		if o.So == t.So {
+			st.assume(Not(Eq(t, o)))
+		}
+	}
+	for _, p := range st.Entry {
+		if pt, ok := p.(T); ok && pt.So == t.So {
+			st.assume(Not(Eq(t, pt)))
+		}
+	}
+	st.Fresh = append(st.Fresh, t)
 }
 
 func (r *Run) isFresh(st *State, ref T) bool {
@@ -1468,6 +1605,7 @@ func (r *Run) makeClosure(st *State, fr *Frame, x *ssa.MakeClosure) Val {
 	}
 	term := e.freshConst("closure_"+sanitize(fn.Name()), SFn)
 	st.assume(Not(Eq(term, NilOf(SFn))))
+	r.assumeFreshTerm(st, term)
 	c := &Closure{Fn: fn, Binds: binds, Term: term}
 	e.closures[term.S] = c
 	return c
